@@ -151,6 +151,9 @@ class Ctx:
                 self.trusted.append(a)
         for k, v in res.solver_time.items():
             self.solver_time[k] = self.solver_time.get(k, 0.0) + v
+        for n in getattr(res, "notes", None) or []:
+            if n not in self.notes:
+                self.notes.append(n)
 
     # -- stand-ins ---------------------------------------------------------
     def standin(self, module, families=("OO",), flavor="plain", args=(),
